@@ -219,6 +219,9 @@ func NewDecoderWithConfig(r io.Reader, config *DecoderConfig) *Decoder {
 
 // Decode decodes the pickle stream and returns the result or an error.
 func (d *Decoder) Decode() (any, error) {
+	// every pickle starts from empty stack and protocol 0, as in CPython load()
+	d.stack = d.stack[:0]
+	d.protocol = 0
 
 	insn := 0
 loop:
